@@ -23,7 +23,7 @@ ASSUMPTIONS = [
     "rule patterns are read through the regex-level reference R1 (vf/ref/rulelang.py); the implicit rule texts themselves are taken from annet.implicit._implicit_tree (data)",
     "reference completion adds, with a default block, the defaults nested in it (what idempotence requires)",
 ]
-FLOORS = {"quick": {"completions": 2000, "defaults_added": 2000, "defaults_suppressed": 1000, "patches_checked": 1500, "front_runs": 150, "front_safe_runs": 150, "front_runs_clear_mode": 150, "block_lines_added": 4000, "pairs_with_vrf_change_on_an_interface": 300, "ports_in_a_port_channel_on_both_sides": 500},
+FLOORS = {"quick": {"completions": 2000, "defaults_added": 2000, "defaults_suppressed": 1000, "patches_checked": 1500, "front_runs": 150, "front_safe_runs": 150, "front_runs_clear_mode": 150, "block_lines_added": 4000, "pairs_with_vrf_change_on_an_interface": 300, "ports_in_a_port_channel_on_both_sides": 500, "touch_patches_checked": 2500},
           "thorough": {"completions": 100000, "defaults_added": 100000, "defaults_suppressed": 50000, "patches_checked": 70000, "front_runs": 7000, "front_safe_runs": 7000, "front_runs_clear_mode": 7000, "block_lines_added": 80000, "pairs_with_vrf_change_on_an_interface": 6000}}
 MODELS = [("Huawei CE6870", ()), ("Huawei NE40E-X8", ()), ("Huawei Quidway S5300", ()), ("Arista DCS-7050", ()),
           ("Cisco Nexus 3132", ()), ("Cisco Nexus 3432", ()), ("Cisco Nexus 9316", ()), ("Cisco Nexus N9K-C9364", ()), ("Cisco Nexus 9504", ("spine1",)),
@@ -264,6 +264,35 @@ def check_case(seed, acc, blk=False):
         acc.count("patch_skipped_exception")
         return w
     acc.count("patches_checked")
+    # (d') the same configuration on both sides but for one more description line in every block: whatever the completion put beside the explicit
+    # lines is unchanged on both sides and must neither show up nor make the patch fail
+    import copy
+    t2 = copy.deepcopy(t)
+    for r_, c_ in t2:
+        if c_ and all(x[0] != "description vf-touch" for x in c_):
+            c_.append(["description vf-touch", []])
+    t2.append(["sysname vf-touch" if model.startswith("Huawei") else "hostname vf-touch", []])
+    try:
+        _diff_and_patch(dev, unplain(t), unplain(t2), None, None, False)
+        raw_ok = True
+    except Exception:
+        raw_ok = False
+    if raw_ok:
+        try:
+            m2 = complete(dev, t2)
+            _, patch_t = _diff_and_patch(dev, unplain(m), unplain(m2), None, None, False)
+            cmds_t = [tuple(p) for p in v.make_formatter().cmd_paths(patch_t)]
+        except Exception as e:
+            acc.violation("C17/defaults-make-the-patch-fail", "a patch that only adds a description line per block fails once both sides are completed with the implicit defaults",
+                          dict(w, error="%s: %s" % (type(e).__name__, str(e)[:200])))
+            return w
+        acc.count("touch_patches_checked")
+        P2 = pure_defaults(t, m) & pure_defaults(t2, m2)
+        for c in cmds_t:
+            row = c[-1][len(v.reverse) + 1:] if c[-1].startswith(v.reverse + " ") else c[-1]
+            if (c[:-1] + (row,) in P2 or c in P2) and not any(len(o) > len(c) and o[:len(c)] == c for o in cmds_t):
+                acc.violation("C17/command-for-pure-default", "a patch command concerns a default line that is absent from both configurations", dict(w, command=list(c), touch=True))
+                return w
     P = pure_defaults(t, m) & pure_defaults(u, mu)
     for op, p in diff_paths(strip_unchanged(diff)):
         if p in P and op in ("ADDED", "REMOVED", "MOVED"):
